@@ -1,5 +1,5 @@
 """Property -> rules registry.  Rules are added here as they are built; a property without rules is not claimed."""
-from .rules import determinism, panics, wiring, traversal, annot, shape, hygiene, enums, shrinking, fresh, sharing
+from .rules import determinism, panics, wiring, traversal, annot, shape, hygiene, enums, shrinking, fresh, sharing, codegen
 
 
 def _thorough_only(rule):
@@ -12,6 +12,45 @@ def _thorough_only(rule):
 
 
 PROPS = {
+    "C06": {
+        "rules": [codegen.rule_isel("x86_64"), enums.rule_enum_dispatch, traversal.rule_trav(["axcut2backend::statements::code_statement::CodeStatement"])],
+        "text": "Instruction-selection templates of the x86-64 backend validated for every reachable operand placement (environment "
+                "positions straddling the register/spill boundary): each emission function (add, sub, mul, div, rem, mov, "
+                "load_immediate with boundary literals of every magnitude, the twelve conditional jumps) is folded from its MIR into "
+                "the instruction list it pushes, and the list is executed on a symbolic machine (operand syntax = the repo's own "
+                "printer, mnemonic semantics = ISA table): target = op(src1, src2), flags = cmp(fst, snd) with the right signed "
+                "condition, nothing else clobbered, every immediate/offset encodable. Plus the dispatch tables of axcut2backend "
+                "(sort/operator -> method, operand order) and traversal completeness of CodeStatement.",
+        "assumptions": ["memory-management sequences (acquire/release/share/erase blocks), closures and jump tables are not validated: "
+                        "run-time behaviour of branching generated code",
+                        "ISA semantics table in analysis/isa.py (x86-64: mov/add/sub/imul/idiv/cqo/cmp/jcc/push/pop; AArch64; RV64)"],
+    },
+    "C07": {
+        "rules": [codegen.rule_isel("aarch64"), enums.rule_enum_dispatch, traversal.rule_trav(["axcut2backend::statements::code_statement::CodeStatement"])],
+        "text": "Instruction-selection templates of the AArch64 backend validated for every reachable operand placement (environment "
+                "positions straddling the register/spill boundary): each emission function (add, sub, mul, div, rem, mov, "
+                "load_immediate with boundary literals of every magnitude, the twelve conditional jumps) is folded from its MIR into "
+                "the instruction list it pushes, and the list is executed on a symbolic machine (operand syntax = the repo's own "
+                "printer, mnemonic semantics = ISA table): target = op(src1, src2), flags = cmp(fst, snd) with the right signed "
+                "condition, nothing else clobbered, every immediate/offset encodable. Plus the dispatch tables of axcut2backend "
+                "(sort/operator -> method, operand order) and traversal completeness of CodeStatement.",
+        "assumptions": ["memory-management sequences (acquire/release/share/erase blocks), closures and jump tables are not validated: "
+                        "run-time behaviour of branching generated code",
+                        "ISA semantics table in analysis/isa.py (x86-64: mov/add/sub/imul/idiv/cqo/cmp/jcc/push/pop; AArch64; RV64)"],
+    },
+    "C08": {
+        "rules": [codegen.rule_isel("rv64"), enums.rule_enum_dispatch, traversal.rule_trav(["axcut2backend::statements::code_statement::CodeStatement"])],
+        "text": "Instruction-selection templates of the RISC-V backend validated for every reachable operand placement (environment "
+                "positions straddling the register/spill boundary): each emission function (add, sub, mul, div, rem, mov, "
+                "load_immediate with boundary literals of every magnitude, the twelve conditional jumps) is folded from its MIR into "
+                "the instruction list it pushes, and the list is executed on a symbolic machine (operand syntax = the repo's own "
+                "printer, mnemonic semantics = ISA table): target = op(src1, src2), flags = cmp(fst, snd) with the right signed "
+                "condition, nothing else clobbered, every immediate/offset encodable. Plus the dispatch tables of axcut2backend "
+                "(sort/operator -> method, operand order) and traversal completeness of CodeStatement.",
+        "assumptions": ["memory-management sequences (acquire/release/share/erase blocks), closures and jump tables are not validated: "
+                        "run-time behaviour of branching generated code",
+                        "ISA semantics table in analysis/isa.py (x86-64: mov/add/sub/imul/idiv/cqo/cmp/jcc/push/pop; AArch64; RV64)"],
+    },
     "C04": {
         "rules": [shape.rule_shape, shrinking.rule_chirality, shrinking.rule_samesrc, shrinking.rule_declsrc, enums.rule_enum_maps({"core2axcut"}),
                   fresh.rule_fresh, fresh.rule_maxid, traversal.rule_trav(["core2axcut::shrinking::Shrinking", "scc_core_lang::traits::substitution::SubstVar",
